@@ -545,3 +545,27 @@ func zeroFieldEdgeInContext(cg *CallGraph, g *ssa.Function, a, b *ssa.BasicBlock
 	}
 	return n > 0
 }
+
+// compiledPatterns: the regexp.MustCompile calls whose result f uses: calls in f itself, and the initialisers of
+// effectively constant package variables (Prog.ConstGlobal) that f loads.
+func compiledPatterns(p *Prog, f *ssa.Function) []CallSite {
+	out := callsNamed(f, false, "regexp.MustCompile")
+	seen := map[ssa.Instruction]bool{}
+	for _, b := range f.Blocks {
+		for _, in := range b.Instrs {
+			u, ok := in.(*ssa.UnOp)
+			if !ok || u.Op != token.MUL {
+				continue
+			}
+			g, ok := u.X.(*ssa.Global)
+			if !ok {
+				continue
+			}
+			if c, ok := p.ConstGlobal(g).(*ssa.Call); ok && calleeName(&c.Call) == "regexp.MustCompile" && !seen[c] {
+				seen[c] = true
+				out = append(out, CallSite{Instr: c, Common: &c.Call, Fn: c.Parent()})
+			}
+		}
+	}
+	return out
+}
